@@ -227,7 +227,7 @@ func (w *world) listTasks() string {
 			ex = "1"
 		}
 		// id;type;status;executing;template;script;vars;dbrps
-		out = append(out, strings.Join([]string{kit.Esc(t.ID), dash(t.Type), st, ex, dash(kit.Esc(t.TemplateID)), scriptIDOf(t.Script), varsIDOf(t.Vars), renderDBRPs(t.DBRPs)}, ";"))
+		out = append(out, strings.Join([]string{kit.Esc(t.ID), dash(t.Type), st, ex, tmplTok(t.TemplateID), scriptIDOf(t.Script), varsIDOf(t.Vars), renderDBRPs(t.DBRPs)}, ";"))
 	}
 	if len(out) == 0 {
 		return "tasks=-"
@@ -256,7 +256,7 @@ func (w *world) listTemplates() string {
 	}
 	var out []string
 	for _, t := range r.Templates {
-		out = append(out, strings.Join([]string{dash(kit.Esc(t.ID)), dash(t.Type), scriptIDOf(t.Script)}, ";"))
+		out = append(out, strings.Join([]string{tmplTok(t.ID), dash(t.Type), scriptIDOf(t.Script)}, ";"))
 	}
 	if len(out) == 0 {
 		return "tmpls=-"
@@ -463,4 +463,11 @@ func execCase(ops []string) (out []string) {
 		}
 	}
 	return out
+}
+
+func tmplTok(id string) string {
+	if id == "" {
+		return "-"
+	}
+	return kit.Esc(id)
 }
